@@ -144,7 +144,8 @@ def gen_project(rnd):
         else:
             lib += ["    def __init__(self, tag=0):", "        self.tag = tag", ""]
         if host == "method":
-            lib += [f"    def target({sig_text(sig, 'self')}):", body_text(sig, "target", 8), ""]
+            lib += [f"    def target({sig_text(sig, 'self')}):",
+                    body_text(sig, "target", 8).replace("('target',", "('target', self.tag,"), ""]
         elif host == "classmethod":
             lib += ["    @classmethod", f"    def target({sig_text(sig, 'cls')}):", body_text(sig, "target", 8), ""]
         elif host == "staticmethod":
@@ -168,6 +169,8 @@ def gen_project(rnd):
         lines.append("")
         if host != "function" and host != "constructor":
             lines.append(f"box = {mod}Box(3)")
+            lines.append(f"spare = {mod}Box(4)")
+            lines.append("flag = 1")
         for k in range(rnd.randint(3, 5)):
             args, shape = gen_call_args(rnd, sig, allow)
             shapes.update(shape)
@@ -182,7 +185,12 @@ def gen_project(rnd):
                     call = f"{mod}Box.target(box" + (", " + args if args else "") + ")"
                     shapes.add("unbound-method-call")
                 else:
-                    call = f"box.target({args})"
+                    # receivers that are expressions: the rewritten call must keep them intact
+                    recv = rnd.choice(["box"] * 6 + ["(box or spare)", "(box if flag else spare)", "(spare if not flag else box)",
+                                                      f"{mod}Box(5)"])
+                    if recv != "box":
+                        shapes.add("receiver-is-an-expression")
+                    call = f"{recv}.target({args})"
             else:
                 call = rnd.choice([f"{mod}Box.target({args})", f"box.target({args})"])
             if rnd.random() < 0.2:
